@@ -27,7 +27,10 @@ Hash(a, b, k) == (((a % 10007) * 7919) + ((b % 10009) * 10473) + (SeedR * 611953
                   + ((k % 100) * 15485863)) % 1000003
 
 (* ------------------------------ labels --------------------------------- *)
-L1 == <<108, 105, 102, 101, 45, 65>>      \* "life-A"
+\* "life-A" followed by 66 filler letters: longer than 64 bytes, so that a label cache
+\* keyed by less than the whole label (prefix, bounded buffer, fingerprint of the ends)
+\* is visible to the label edits
+L1 == <<108, 105, 102, 101, 45, 65>> \o [i \in 1..66 |-> 97 + ((i * 7) % 26)]
 L2 == <<108, 105, 102, 101, 45, 66>>      \* "life-B"
 L3 == <<108>>                             \* "l"
 BaseLabels == <<L1, L2, L3, <<>>>>
@@ -114,7 +117,7 @@ HeadPiks == <<"none", "first", "adjfirst", "zero", "last", "firstlast", "adjlast
               "zerolast", "customlast">>
 TailPiks == <<"last", "firstlast", "adjlast", "zerolast", "customlast">>
 BodyOrder == <<"empty", "arith", "boolsel", "range", "rawrange", "rawlogic", "ecc",
-               "decomp", "trunc", "logic", "fixed", "var">>
+               "decomp", "trunc", "logic", "fixed", "var", "mds">>
 PickFrom(seq, h) == seq[(h % Len(seq)) + 1]
 SweepPik(c, d) ==
   LET cand == SelectSeq(IF IsPow2(c) THEN TailPiks ELSE HeadPiks,
@@ -128,7 +131,11 @@ SweepBody(c, d) ==
   IN IF Len(big) > 0 /\ Hash(c, d, 4) % 2 = 0 THEN PickFrom(big, Hash(c, d, 5))
      ELSE PickFrom(cand, Hash(c, d, 3))
 SweepProg(c, d) == Cat(SweepBody(c, d), c, SweepPik(c, d))
+\* ... plus, per capacity, the MDS layer at the smallest and the largest count that fits
+CountsAt(d) == { x \in Counts : d \in CapsOf(x) /\ CatFits("mds", x, "none") }
 C01ProgsFor(d) == { SweepProg(c, d) : c \in { x \in Counts : d \in CapsOf(x) } }
+                  \cup { Cat("mds", c, "none") : c \in { x \in CountsAt(d) :
+                            (\A y \in CountsAt(d) : x <= y) \/ (\A y \in CountsAt(d) : x >= y) } }
 C01Routes(d, p) == { IF Hash(p.c, d, 6) % 3 = 0 THEN "default" ELSE "direct", "compressed" }
 C01Labels(d, p) == { PickFrom(BaseLabels, Hash(p.c, d, 8)) }
 C01RoundTrips(d, p) ==
